@@ -8,6 +8,7 @@ import Qentem.Proofs.NumToStrIntClass
 import Qentem.Proofs.NumToStrExact
 import Qentem.Proofs.NumToStrIntClass32
 import Qentem.Proofs.NumToStrLayout
+import Qentem.Proofs.NumToStrDefault
 /-! C10 — number to text equals the reference formatting for every value and precision.
 
 Model: `Qentem.NumToStr` (transcription of `Digit.hpp`), reference: `Qentem.FmtSpec` (ISO C
@@ -252,6 +253,22 @@ theorem digits_exact_or_sticky32 (bits p fmt : Nat) (hp : p ≤ 40)
 /-- non-vacuity: 0.1 at 17 digits — the run is ⌊0.1·10^20⌋ = 10000000000000000555 (20 fractional digits), sticky -/
 example : digitRun f64 (0x3FB999999999999A % 2 ^ 52) ((0x3FB999999999999A / 2 ^ 52) % 2 ^ 11 * 2 ^ 52) 17 0 =
     .ok (10000000000000000555, 2, 20, false, true) := by decide +kernel
+
+/-- `format_eq_spec_integers_default`: Default format (`%.{p}g`), every integer-valued double whose decimal
+numeral has at most `P` digits (`P` = precision, 1 for precision 0): the plain numeral, no exponent form,
+exactly as printf.  (Integers with more digits than the precision need the rounding step: open.) -/
+theorem format_eq_spec_integers_default (pre : List Nat) (bits p : Nat) (hp : p ≤ 1048576) (j : Nat)
+    (h : IntValued64 ((bits / 2 ^ 52) % 2 ^ 11) (bits % 2 ^ 52) j)
+    (hl : ((Nat.toDigits 10 (Qentem.Proofs.NumToStr.intValue64 ((bits / 2 ^ 52) % 2 ^ 11) (bits % 2 ^ 52))).map Char.toNat).length
+        ≤ (if p = 0 then 1 else p)) :
+    realToString f64 pre bits p fmtDefault = .ok (pre ++ FmtSpec.format64 bits p (specFmt fmtDefault)) :=
+  Qentem.Proofs.NumToStr.default_small_int64 pre bits p j h hl hp
+
+/-- the digit estimate of `realToString` is exactly the number of decimal digits of `2^e`, for every binary
+exponent a double or float can have -/
+theorem digit_estimate_exact : ∀ e, e ≤ 1130 →
+    10 ^ (e * 30103 / 100000) ≤ 2 ^ e ∧ 2 ^ e < 10 ^ (e * 30103 / 100000 + 1) :=
+  Qentem.Proofs.NumToStr.est_table
 
 /-- number of binary fraction digits of a double (`0` for integers): `52 - ctz(mantissa) ∓ exponent` -/
 abbrev fracBits64 (bits : Nat) : Nat :=
